@@ -115,7 +115,8 @@ def r1(ctx):
                 if not failed:
                     continue
                 n += 1
-                inc = any(k.kind == 'discr' and k.variants == {'IncompatibleAttributes'} for k in conds)
+                inc = all(any(k.kind == 'discr' and k.variants == {'IncompatibleAttributes'} for k in cv)
+                          for cv in expand_conditions(b, conds))
                 ctx.check(inc, R, b, 'swallowed-error-is-incompatible-attributes@bb-after-%s' % failed[0].ln.rsplit(
                     ':', 1)[-1], 'only Errors::IncompatibleAttributes is dropped',
                     'a distance error other than IncompatibleAttributes is silently dropped instead of being '
